@@ -188,4 +188,66 @@ def extra_checks(tier, seed):
                     dict(kind='counterexample', stream='add_ordered_transitions', case=c, model_obs=m, impl_obs=i)))
     else:
         out.append(('ordered_transitions', True, detail, {}))
+    out.append(late_transitions_stream(tier, seed))
     return out
+
+
+def late_transitions_stream(tier, seed):
+    """machines reconfigured after events have been processed: the last transitions of some events are added by
+    add_transition only after the k-th call.  Model: the flat engine on the reduced machine for the first k calls, then
+    on the complete machine started in the state reached (callback behaviour by callback id, so positions do not
+    matter)."""
+    import copy
+    import random
+    import framework as F
+    n = 300 if tier == 'quick' else 8000
+    cases = []
+    for i in range(n):
+        rng = random.Random('C01l-%d-%d' % (seed, i))
+        c = flat.gen_case(rng, malformed=False, hist_len=rng.randint(3, 8), p_unknown=0.0)
+        c['env'] = dict(default=c['env']['default'], bypos={}, bycb={k: (r[0], None, []) for k, r in c['env']['bycb'].items()})
+        c['cls'] = ['Machine', 'LockedMachine', 'GraphMachine', 'HierarchicalMachine'][i % 4]
+        late = {}
+        for e, ts in c['machine']['events']:
+            # (an event that does not exist yet is an unknown name: the hierarchical classes answer those through
+            # finalize / on_exception, Machine raises directly - outside C09's envelope, so not generated there)
+            hi = len(ts) - 1 if 'Hierarchical' in c['cls'] else len(ts)
+            if rng.random() < 0.6 and hi >= 1:
+                late[e] = rng.randint(1, hi)
+        c['late'] = (rng.randint(1, len(c['history']) - 1), late)
+        cases.append(c)
+
+    def phase1(c):
+        c1 = copy.deepcopy(c)
+        evs = []
+        for e, ts in c1['machine']['events']:
+            r = c['late'][1].get(e, 0)
+            if len(ts) - r > 0:
+                evs.append((e, ts[:len(ts) - r]))
+        c1['machine']['events'] = evs
+        c1['history'] = c['history'][:c['late'][0]]
+        return c1
+    m1 = F.run_model(0, [flat.enc_case(phase1(c)) for c in cases])
+    second = []
+    for c, o in zip(cases, m1):
+        c2 = copy.deepcopy(c)
+        c2['history'] = c['history'][c['late'][0]:]
+        if isinstance(o, list) and o[0] == 1 and o[1]:
+            c2['init'] = o[1][-1][2]
+        second.append(c2)
+    m2 = F.run_model(0, [flat.enc_case(c) for c in second])
+    io = F.run_impl('flat', 'impl_flat_late', cases)
+    bad = None
+    used_late = 0
+    for c, a, b, i in zip(cases, m1, m2, io):
+        if not (isinstance(a, list) and isinstance(b, list) and a[0] == 1 and b[0] == 1):
+            continue
+        m = [1, a[1] + b[1]]
+        if m != i and bad is None:
+            bad = (c, m, i)
+    detail = dict(cases=len(cases), disagreements=0 if bad is None else 1)
+    if bad:
+        c, m, i = bad
+        return ('transitions_added_after_events', False, detail,
+                dict(kind='counterexample', stream='add_transition after events have been processed', case=c, model_obs=m, impl_obs=i))
+    return ('transitions_added_after_events', True, detail, {})
